@@ -14,8 +14,13 @@ Tie to /repo on every run:
      2-D and 3-D); every named operation is run on the implementation and on the model (over Qc, inside
      Coq) and the resulting coefficient lists are compared entry by entry (exactly; 1e-12 where the
      implementation's float projector tables enter); Taylor.__call__ is compared with the model's E;
- (F) direct evaluator: random float (also complex) expansions; value(op(a,b)) against op(value(a),
-     value(b)) with an evaluator written from the definition, tolerance 1e-10 * scale.
+ (F) direct evaluator: random float (also complex) expansions; ONE float ndarray u with |u| != 1 is handed to
+     every expansion of an identity (left and right side one after the other, radial functions r^n);
+     library value of op(a,b) = op on the library's own values at the same array = op on a definition-level
+     power series at a copy of the ORIGINAL point, tolerance 1e-10 * scale;
+ (G) argument guard: every call into the library made by (X) and (F) (powexp, __call__, arithmetic, ldot/rdot,
+     slices, reduce..., constructexpansion) must leave its arguments (evaluation point, operands, matrices)
+     bit-identical to a snapshot taken before the call (key c16-input-mutated).
 Not modelled: float rounding, numpy broadcasting internals, the in-place aliasing behaviour, the
 dict-valued scalar arguments, HDF5 I/O (C13)."""
 META = dict(
@@ -116,6 +121,7 @@ def scenario_linear(rng, T, d, B):
     a = tc.rand_expansion(rng, d, shape, tc.rand_nl(rng, -2, 4, 4, cnt(), distinct_n=rng.random() < .5))
     b = tc.rand_expansion(rng, d, shape, tc.rand_nl(rng, -2, 4, 4, cnt(), distinct_n=rng.random() < .5))
     ta, tb = T(a), T(b)
+    g = tc.unchanged("exact tier: + - sumcoeff += -= neg scalar truncate", a=ta, b=tb); g.__enter__()
     A = B.define(tc.mkx(n, a), xtype(n)); Bn = B.define(tc.mkx(n, b), xtype(n))
     dom = "(wfb QK %d 4 %s %s && wfb QK %d 4 %s %s)" % (d, V, A, d, V, Bn)
     inp = {"dim": d, "shape": list(shape), "a": tc.jsonable(a), "b": tc.jsonable(b)}
@@ -141,9 +147,8 @@ def scenario_linear(rng, T, d, B):
     emit("truncate", "(truncate QK %s %s%%Z %s)" % (V, tc.zlit(N), A), ta.truncate(N), {"Nmax": N})
     t4 = ta.copy(); t4.truncate(N, inplace=True)
     emit("truncate-inplace", "(truncate QK %s %s%%Z %s)" % (V, tc.zlit(N), A), t4, {"Nmax": N})
-    # the operands must not have been modified by the out-of-place operations
-    if not all(np.array_equal(x[2], y[2]) for x, y in zip(ta.coefflist, a)):
-        return "operand modified by an out-of-place operation"
+    # the operands must not have been modified (in-place operations were applied to copies)
+    g.__exit__(None, None, None)
     return None
 
 
@@ -169,7 +174,8 @@ def scenario_product(rng, T, d, B, overflow=False):
         if rng.random() < .08: nla = []
     dens = 0.5 if max(na, nb) <= 2 else 0.35
     a = tc.rand_expansion(rng, d, sa, nla, density=dens); b = tc.rand_expansion(rng, d, sb, nlb, density=dens)
-    res = tc.real_coefflist(T(a) * T(b))
+    ta, tb = T(a), T(b)
+    with tc.unchanged("exact tier: a*b", a=ta, b=tb): res = tc.real_coefflist(ta * tb)
     A = B.define(tc.mkx(na, a), xtype(na)); Bn = B.define(tc.mkx(nb, b), xtype(nb))
     dom = "(wfb QK %d 4 (pwmod QK %d) %s && wfb QK %d 4 (pwmod QK %d) %s)" % (d, na, A, d, nb, Bn)
     B.add("code %s (xcmp %d (peqb QK %d) (coeffproduct QK %d 4 (pwmod QK %d) (pwmod QK %d) (pwmod QK %d) %s %s %s) %s)" %
@@ -189,12 +195,12 @@ def scenario_linmap(rng, T, d, B):
     inp = {"dim": d, "shape": [r, m], "a": tc.jsonable(a)}
     q = rng.randint(1, 3)
     C = np.array([[tc.dy(rng) for _ in range(r)] for _ in range(q)])
-    res = tc.real_coefflist(ta.ldot(C))
+    with tc.unchanged("exact tier: ldot", a=ta, C=C): res = tc.real_coefflist(ta.ldot(C))
     B.add("code %s (xcmp %d (peqb QK %d) (mapcoeff QK (pwmod QK %d) (pwmod QK %d) (fun b => matmul QK %d %d %d %s b) %s) %s)" %
           (dom, q * m, q * m, n, q * m, q, r, m, tc.mkv(q * r, C), A, tc.mkx(q * m, res)),
           op="ldot", inp=dict(inp, C=C.tolist()), impl=tc.jsonable(res), dim=d, shape=(q, m), size=len(a))
     C2 = np.array([[tc.dy(rng) for _ in range(q)] for _ in range(m)])
-    res = tc.real_coefflist(ta.rdot(C2))
+    with tc.unchanged("exact tier: rdot", a=ta, C=C2): res = tc.real_coefflist(ta.rdot(C2))
     B.add("code %s (xcmp %d (peqb QK %d) (mapcoeff QK (pwmod QK %d) (pwmod QK %d) (fun b => matmul QK %d %d %d b %s) %s) %s)" %
           (dom, r * q, r * q, n, r * q, r, m, q, tc.mkv(m * q, C2), A, tc.mkx(r * q, res)),
           op="rdot", inp=dict(inp, C=C2.tolist()), impl=tc.jsonable(res), dim=d, shape=(r, q), size=len(a))
@@ -216,7 +222,8 @@ def scenario_construct(rng, T, d, B):
               np.array([tc.dy(rng, 1, 2) for _ in range(d)])) for _ in range(nb)]
     N = rng.choice([-1, 0, 1, 2, 3, 4])
     pre = None if rng.random() < .3 else [tc.dy(rng, 1, 2) for _ in range((N if N >= 0 else 4) + 1)]
-    out = T.constructexpansion(basis, N, pre)
+    with tc.unchanged("exact tier: constructexpansion", basis=[x for cv in basis for x in cv], pre=pre):
+        out = T.constructexpansion(basis, N, pre)
     res = tc.real_coefflist([c[0] for c in out])
     Nn = N if N >= 0 else 4
     prel = pre if pre is not None else [1.0] * (Nn + 1)
@@ -270,23 +277,32 @@ def scenario_eval(rng, T, d, B):
     a = tc.rand_expansion(rng, d, shape, tc.rand_nl(rng, -2, 4, 4, rng.choice([1, 2, 3, 4])), density=0.5)
     while True:
         u = np.array([tc.dy(rng, 2, 2) for _ in range(d)])
-        if np.dot(u, u) > 0.05: break
-    val = np.asarray(tc.impl_value(T(a), u), dtype=float)
-    # the point at which the implementation really evaluates: powexp's own float normalisation
-    umagn = np.sqrt(np.dot(u, u)); u0 = u.copy(); u0 /= umagn
+        if np.dot(u, u) > 0.05 and abs(np.dot(u, u) - 1.0) > 0.05: break      # never a unit vector
+    uorig = u.copy()                                     # the ORIGINAL point: everything on the model side uses this copy
+    ta = T(a)
+    val = np.asarray(tc.impl_value(ta, u), dtype=float)   # the library gets the caller's array itself
+    val2 = np.asarray(tc.impl_value(ta, u), dtype=float)  # ... and a second evaluation at the same array must agree
+    # the direction at which the implementation is meant to evaluate: powexp's own float normalisation of the original point
+    umagn = np.sqrt(np.dot(uorig, uorig)); u0 = uorig.copy(); u0 /= umagn
     scale = 1.0 + sum(float(umagn) ** nn * float(np.abs(c).sum()) for nn, l, c in a)
     tol = Fraction(FTOL * scale)
     A = B.define(tc.mkx(n, a), xtype(n))
-    B.add("code (wfb QK %d 4 %s %s) (pclose %d %s (E QK %d 4 %s (radq %s) %s %s) %s)" %
-          (d, V, A, n, tc.qlit(tol), d, V, tc.qlit(Fraction(float(umagn))), tc.qlist([Fraction(float(x)) for x in u0]), A,
-           tc.mkv_grid(n, val)),
-          op="__call__", inp={"dim": d, "shape": list(shape), "a": tc.jsonable(a), "u": u.tolist()}, impl=val.tolist(),
-          dim=d, shape=shape, size=len(a), tol=FTOL * scale)
-    # powexp(u, normalize=False) is exact on dyadic input
-    pe = T.powexp(u, normalize=False)
+    for tag, v in (("__call__", val), ("__call__(same array again)", val2)):
+        B.add("code (wfb QK %d 4 %s %s) (pclose %d %s (E QK %d 4 %s (radq %s) %s %s) %s)" %
+              (d, V, A, n, tc.qlit(tol), d, V, tc.qlit(Fraction(float(umagn))), tc.qlist([Fraction(float(x)) for x in u0]), A,
+               tc.mkv_grid(n, v)),
+              op=tag, inp={"dim": d, "shape": list(shape), "a": tc.jsonable(a), "u": uorig.tolist()}, impl=v.tolist(),
+              dim=d, shape=shape, size=len(a), tol=FTOL * scale)
+    # powexp(u, normalize=False) is exact on dyadic input; powexp(u) (normalising) must return |u| and leave u alone
+    with tc.unchanged("powexp(normalize=False)", u=u): pe = T.powexp(u, normalize=False)
     B.add("code true (leqb (reqb QK) (powexp %d 4 %s) (map (qd %d%%positive) %s%%Z))" %
-          (d, tc.qlist(u), tc.common_den([pe]), tc.zlist(tc.ints(pe, tc.common_den([pe])))),
-          op="powexp", inp={"dim": d, "u": u.tolist()}, impl=pe.tolist(), dim=d, shape=(), size=1)
+          (d, tc.qlist(uorig), tc.common_den([pe]), tc.zlist(tc.ints(pe, tc.common_den([pe])))),
+          op="powexp", inp={"dim": d, "u": uorig.tolist()}, impl=pe.tolist(), dim=d, shape=(), size=1)
+    with tc.unchanged("powexp(normalize=True)", u=u): pn, mag = T.powexp(u)
+    B.add("code true (qclose (qq 1 1000000000000) %s %s && leqb (qclose (qq 1 1000000000000)) (powexp %d 4 %s) (map (qd %d%%positive) %s%%Z))" %
+          (tc.qlit(Fraction(float(mag))), tc.qlit(Fraction(float(umagn))), d, tc.qlist([Fraction(float(x)) for x in u0]),
+           tc.GRID, tc.zlist(tc.grid_ints(pn, tc.GRID))),
+          op="powexp-normalised", inp={"dim": d, "u": uorig.tolist()}, impl=pn.tolist(), dim=d, shape=(), size=1)
 
 
 def exact_tier(ck, Ts):
@@ -363,64 +379,90 @@ def absscale(cl, r):
 
 
 def float_tier(ck, Ts):
+    """Every identity is evaluated the way a user does it: ONE float ndarray u with |u| != 1 is handed to every
+    expansion, left- and right-hand side one after the other, with the magnitude-dependent radial functions r^n.
+    lhs = library value of op(a, b) at u;  rhs_lib = op applied to the library values of a, b at the same array u;
+    rhs_def = op applied to the definition-level power series at a COPY of the original point.  All three must agree,
+    and no call may have changed u, the operands or the matrices (tc.unchanged)."""
     rng = ck.rng
     nr = ck.nprng(16)
     ntr = ck.n(120, 6000)
     worst = 0.0
     nsamp = 0
+    ev = tc.impl_value
     for it in range(ntr):
         d = rng.choice([3, 2]); T = Ts[d]
         cplx = rng.random() < .3
-        u = nr.normal(size=d); u *= rng.uniform(0.5, 2.0) / np.linalg.norm(u)
-        r = float(np.linalg.norm(u))
+        u = nr.normal(size=d); u *= rng.choice([rng.uniform(0.4, 0.8), rng.uniform(1.25, 2.5)]) / np.linalg.norm(u)   # |u| != 1
+        uorig = u.copy()
+        r = float(np.linalg.norm(uorig))
         op = rng.choice(["sum", "diff", "neg", "scalar", "ldot", "rdot", "product", "product-sm", "slice", "setitem", "truncate",
-                         "reduce", "reducecoeff", "collectcoeff", "separate", "construct"])
-        checks = []          # (label, lhs, rhs, scale)
+                         "reduce", "reducecoeff", "collectcoeff", "separate", "construct", "powexp"])
+        checks = []          # (label, lhs, rhs_def, rhs_lib or None, scale)
         try:
             if op in ("sum", "diff", "neg", "scalar", "truncate", "slice", "setitem"):
                 shape = rng.choice([(), (2, 2), (2, 3), (1, 1)])
                 a = rand_float_expansion(nr, d, shape, tc.rand_nl(rng, -2, 4, 4, rng.randint(1, 4)), cplx)
                 b = rand_float_expansion(nr, d, shape, tc.rand_nl(rng, -2, 4, 4, rng.randint(1, 4)), cplx)
-                va, vb = tc.value(a, u, d), tc.value(b, u, d)
+                ta, tb = T(a), T(b)
+                va, vb = tc.value(a, uorig, d), tc.value(b, uorig, d)
                 sc = 1 + absscale(a, r) + absscale(b, r)
                 if op == "sum":
-                    checks.append(("a+b", tc.impl_value(T(a) + T(b), u), va + vb, sc))
+                    with tc.unchanged("a+b", a=ta, b=tb): t = ta + tb
+                    checks.append(("a+b", ev(t, u), va + vb, ev(ta, u) + ev(tb, u), sc))
                     al, be = nr.normal(), nr.normal()
-                    checks.append(("sumcoeff", tc.impl_value(T(T.sumcoeff(T(a), T(b), al, be)), u), al * va + be * vb, sc * (1 + abs(al) + abs(be))))
+                    with tc.unchanged("sumcoeff", a=ta, b=tb): t = T(T.sumcoeff(ta, tb, al, be))
+                    checks.append(("sumcoeff", ev(t, u), al * va + be * vb, al * ev(ta, u) + be * ev(tb, u), sc * (1 + abs(al) + abs(be))))
+                    t = ta.copy()
+                    with tc.unchanged("a+=b", b=tb): t += tb
+                    checks.append(("a+=b", ev(t, u), va + vb, ev(ta, u) + ev(tb, u), sc))
                 elif op == "diff":
-                    checks.append(("a-b", tc.impl_value(T(a) - T(b), u), va - vb, sc))
-                    t = T(a); t -= T(b)
-                    checks.append(("a-=b", tc.impl_value(t, u), va - vb, sc))
+                    with tc.unchanged("a-b", a=ta, b=tb): t = ta - tb
+                    checks.append(("a-b", ev(t, u), va - vb, ev(ta, u) - ev(tb, u), sc))
+                    t = ta.copy()
+                    with tc.unchanged("a-=b", b=tb): t -= tb
+                    checks.append(("a-=b", ev(t, u), va - vb, ev(ta, u) - ev(tb, u), sc))
                 elif op == "neg":
-                    checks.append(("-a", tc.impl_value(-T(a), u), -va, sc))
+                    with tc.unchanged("-a", a=ta): t = -ta
+                    checks.append(("-a", ev(t, u), -va, -ev(ta, u), sc))
                 elif op == "scalar":
                     k = nr.normal()
-                    checks.append(("k*a", tc.impl_value(k * T(a), u), k * va, sc * (1 + abs(k))))
-                    checks.append(("a*k", tc.impl_value(T(a) * k, u), k * va, sc * (1 + abs(k))))
+                    with tc.unchanged("k*a", a=ta): t1 = k * ta; t2 = ta * k
+                    checks.append(("k*a", ev(t1, u), k * va, k * ev(ta, u), sc * (1 + abs(k))))
+                    checks.append(("a*k", ev(t2, u), k * va, k * ev(ta, u), sc * (1 + abs(k))))
                 elif op == "truncate":
                     N = rng.randint(-2, 4)
-                    per, _ = tc.value(a, u, d, per_order=True)
+                    per, _ = tc.value(a, uorig, d, per_order=True)
                     rhs = sum(r ** n * v for n, v in per.items() if n <= N) if any(n <= N for n in per) else 0
-                    checks.append(("truncate", tc.impl_value(T(a).truncate(N), u), rhs, sc))
+                    with tc.unchanged("truncate", a=ta): t = ta.truncate(N)
+                    perl = ev(ta, u, per_order=True)
+                    rl = sum(r ** n * v for n, v in perl.items() if n <= N) if any(n <= N for n in perl) else 0
+                    checks.append(("truncate", ev(t, u), rhs, rl, sc))
                 elif op == "slice" and shape != ():
                     key = (rng.randrange(shape[0]), rng.randrange(shape[1]))
-                    checks.append(("a[i,j]", tc.impl_value(T(a)[key], u), np.asarray(va)[key], sc))
+                    with tc.unchanged("a[i,j]", a=ta): t = ta[key]
+                    checks.append(("a[i,j]", ev(t, u), np.asarray(va)[key], np.asarray(ev(ta, u))[key], sc))
                     key2 = (slice(None), rng.randrange(shape[1]))
-                    checks.append(("a[:,j]", tc.impl_value(T(a)[key2], u), np.asarray(va)[key2], sc))
+                    with tc.unchanged("a[:,j]", a=ta): t = ta[key2]
+                    checks.append(("a[:,j]", ev(t, u), np.asarray(va)[key2], np.asarray(ev(ta, u))[key2], sc))
                 elif op == "setitem" and shape == (2, 2):
                     z = T.zeros(-2, 4, (2, 2))
-                    z[0:2, 0:2] = T([(n, l, c) for n, l, c in a if True][:1])
-                    checks.append(("z[...]=a", tc.impl_value(z, u), tc.value(a[:1], u, d), sc))
+                    t1 = T(a[:1])
+                    with tc.unchanged("z[...]=a", a=t1): z[0:2, 0:2] = t1
+                    checks.append(("z[...]=a", ev(z, u), tc.value(a[:1], uorig, d), ev(t1, u), sc))
             elif op in ("ldot", "rdot"):
                 rr, m, q = rng.randint(1, 3), rng.randint(1, 3), rng.randint(1, 3)
                 a = rand_float_expansion(nr, d, (rr, m), tc.rand_nl(rng, -2, 4, 4, rng.randint(1, 3)), cplx)
-                va = tc.value(a, u, d)
+                ta = T(a)
+                va = tc.value(a, uorig, d)
                 if op == "ldot":
                     C = nr.normal(size=(q, rr))
-                    checks.append(("ldot", tc.impl_value(T(a).ldot(C), u), C @ va, (1 + absscale(a, r)) * (1 + np.abs(C).sum())))
+                    with tc.unchanged("ldot", a=ta, C=C): t = ta.ldot(C)
+                    checks.append(("ldot", ev(t, u), C @ va, C @ ev(ta, u), (1 + absscale(a, r)) * (1 + np.abs(C).sum())))
                 else:
                     C = nr.normal(size=(m, q))
-                    checks.append(("rdot", tc.impl_value(T(a).rdot(C), u), va @ C, (1 + absscale(a, r)) * (1 + np.abs(C).sum())))
+                    with tc.unchanged("rdot", a=ta, C=C): t = ta.rdot(C)
+                    checks.append(("rdot", ev(t, u), va @ C, ev(ta, u) @ C, (1 + absscale(a, r)) * (1 + np.abs(C).sum())))
             elif op in ("product", "product-sm"):
                 la = rng.randint(0, 4); lb = 4 - la
                 if op == "product":
@@ -429,43 +471,64 @@ def float_tier(ck, Ts):
                     sa, sb = rng.choice([((), (2, 2)), ((2, 2), ()), ((), ())])
                 a = rand_float_expansion(nr, d, sa, tc.rand_nl(rng, -2, 4, la, rng.randint(1, 3)), cplx)
                 b = rand_float_expansion(nr, d, sb, tc.rand_nl(rng, -2, 4, lb, rng.randint(1, 3)), cplx)
-                va, vb = tc.value(a, u, d), tc.value(b, u, d)
-                rhs = (va @ vb) if (sa != () and sb != ()) else va * vb
-                checks.append(("a*b", tc.impl_value(T(a) * T(b), u), rhs, (1 + absscale(a, r)) * (1 + absscale(b, r))))
+                ta, tb = T(a), T(b)
+                va, vb = tc.value(a, uorig, d), tc.value(b, uorig, d)
+                mm = (sa != () and sb != ())
+                with tc.unchanged("a*b", a=ta, b=tb): t = ta * tb
+                la_, lb_ = ev(ta, u), ev(tb, u)
+                checks.append(("a*b", ev(t, u), (va @ vb) if mm else va * vb, (la_ @ lb_) if mm else la_ * lb_,
+                               (1 + absscale(a, r)) * (1 + absscale(b, r))))
             elif op in ("reduce", "reducecoeff", "collectcoeff", "separate"):
                 shape = rng.choice([(), (2, 2)])
                 a = rand_float_expansion(nr, d, shape, tc.rand_nl(rng, 0, 4, 4, rng.randint(1, 4)), cplx)
-                va = tc.value(a, u, d); sc = 1 + absscale(a, r)
-                if op == "reduce": t = T(a).reduce()
-                elif op == "reducecoeff": t = T(T.reducecoeff(T(a)))
-                elif op == "collectcoeff": t = T(T.collectcoeff(T(a)))
-                else: t = T(a).reduce().separate()
-                checks.append((op, tc.impl_value(t, u), va, sc))
+                ta = T(a)
+                va = tc.value(a, uorig, d); sc = 1 + absscale(a, r)
+                with tc.unchanged(op, a=ta):
+                    if op == "reduce": t = ta.copy().reduce()
+                    elif op == "reducecoeff": t = T(T.reducecoeff(ta))
+                    elif op == "collectcoeff": t = T(T.collectcoeff(ta))
+                    else: t = ta.copy().reduce().separate()
+                checks.append((op, ev(t, u), va, ev(ta, u), sc))
+            elif op == "powexp":
+                with tc.unchanged("powexp(normalize=True)", u=u): pn, mag = T.powexp(u)
+                with tc.unchanged("powexp(normalize=False)", u=u): pf = T.powexp(u, normalize=False)
+                ex = tc.exponents(d, tc.LMAX)
+                ref_n = np.array([np.prod([(x / r) ** k for x, k in zip(uorig, e)]) for e in ex])
+                ref_f = np.array([np.prod([x ** k for x, k in zip(uorig, e)]) for e in ex])
+                checks.append(("powexp", np.append(pn, mag), np.append(ref_n, r), None, 1.0))
+                checks.append(("powexp(normalize=False)", pf, ref_f, None, 1.0 + r ** 4))
             else:  # construct
                 shape = rng.choice([(1, 1), (2, 2)])
                 basis = [(nr.normal(size=shape), nr.normal(size=d)) for _ in range(rng.randint(1, 3))]
                 N = rng.choice([-1, 2, 3, 4]); Nn = 4 if N < 0 else N
                 pre = [nr.normal() for _ in range(Nn + 1)]
-                out = T.constructexpansion(basis, N, pre)
+                with tc.unchanged("constructexpansion", basis=[x for cv in basis for x in cv], pre=pre):
+                    out = T.constructexpansion(basis, N, pre)
                 t = T([c[0] for c in out])
-                rhs = sum(pre[n] * float(np.dot(v, u)) ** n * co for co, v in basis for n in range(Nn + 1))
+                rhs = sum(pre[n] * float(np.dot(v, uorig)) ** n * co for co, v in basis for n in range(Nn + 1))
                 sc = 1 + sum(abs(pre[n]) * (np.linalg.norm(v) * r) ** n * np.abs(co).sum() for co, v in basis for n in range(Nn + 1))
-                checks.append(("constructexpansion", tc.impl_value(t, u), rhs, sc))
+                checks.append(("constructexpansion", ev(t, u), rhs, None, sc))
         except (ArithmeticError, ValueError, TypeError, IndexError) as e:
             ck.violation("implementation raised %s: %s during %s" % (type(e).__name__, e, op),
-                         {"op": op, "dim": d, "u": u.tolist(), "iteration": it}, key="c16-float-exception-%s" % op)
+                         {"op": op, "dim": d, "u": uorig.tolist(), "iteration": it}, key="c16-float-exception-%s" % op)
             continue
-        for label, lhs, rhs, sc in checks:
+        for label, lhs, rhs, rhs_lib, sc in checks:
             err = float(np.max(np.abs(np.asarray(lhs) - np.asarray(rhs)))) / sc
-            worst = max(worst, err)
+            err_lib = 0.0 if rhs_lib is None else float(np.max(np.abs(np.asarray(lhs) - np.asarray(rhs_lib)))) / sc
+            worst = max(worst, err, err_lib)
             samp = None
             if nsamp < 2 and label in ("a*b", "reduce"):
-                samp = {"tier": "float", "op": label, "dim": d, "complex": cplx, "u": u.tolist(), "rel_err": err}; nsamp += 1
+                samp = {"tier": "float", "op": label, "dim": d, "complex": cplx, "u": uorig.tolist(), "|u|": r, "rel_err": err,
+                        "rel_err_library_rhs_same_array": err_lib}; nsamp += 1
             ck.case(key=("float", label, d, it), nontrivial=True, kind="float:%s:%dD" % (label, d), sample=samp)
             if not (err <= FTOL):
-                ck.violation("float evaluator: value(%s) differs from the operation on the values by %.3g (relative to scale)" % (label, err),
-                             {"op": label, "dim": d, "complex": cplx, "u": u.tolist(), "lhs": np.asarray(lhs).tolist(),
+                ck.violation("float evaluator: value(%s) differs from the operation on the values (direct power series at the original point) by %.3g (relative to scale)" % (label, err),
+                             {"op": label, "dim": d, "complex": cplx, "u": uorig.tolist(), "u_after": u.tolist(), "lhs": np.asarray(lhs).tolist(),
                               "rhs": np.asarray(rhs).tolist(), "iteration": it, "seed": ck.seed}, key="c16-float-%s" % label)
+            elif not (err_lib <= FTOL):
+                ck.violation("library identity: %s evaluated at u differs from the operation applied to the library's own values at the SAME array u by %.3g" % (label, err_lib),
+                             {"op": label, "dim": d, "complex": cplx, "u": uorig.tolist(), "u_after": u.tolist(), "lhs": np.asarray(lhs).tolist(),
+                              "rhs_library": np.asarray(rhs_lib).tolist(), "iteration": it, "seed": ck.seed}, key="c16-same-array-%s" % label)
     ck.extra["float_worst_rel_err"] = worst
 
 
@@ -476,7 +539,7 @@ def overflow_demo(ck, Ts):
     c = np.zeros(20); c[19] = 1.0        # x^3
     a = T([(3, 3, c)])
     u = np.array([2., -1., 3.]); r = float(np.linalg.norm(u))
-    got = tc.impl_value(a * a, u); want = tc.impl_value(a, u) ** 2
+    got = tc.impl_value(a * a, u.copy()); want = tc.impl_value(a, u.copy()) ** 2
     ck.extra["outside_domain_demo"] = {"a": "r^3 x^3 (l=3)", "impl_value_of_a*a": float(np.real(got)), "square_of_value": float(np.real(want))}
     ck.note("outside the hypothesis (l_a+l_b=6>4): value(a*a)=%.6g vs value(a)^2=%.6g -- differs as the model proves; not part of the property"
             % (float(np.real(got)), float(np.real(want))))
@@ -486,8 +549,9 @@ def run(ck):
     ck.rule = ("(T) all index/projector tables of Taylor3D and Taylor2D, exhaustively; (X) random expansions: dimension 2/3, "
                "scalar or r x c matrix coefficients (r,c<=3), 0-4 entries (n in -2..4, l in 0..4, repeated n allowed), dyadic "
                "coefficients k/4; every operation named in the property evaluated by the implementation and by the Coq model "
-               "over Qc and compared coefficientwise; (F) random real/complex float expansions against a definition-level "
-               "evaluator; distinct = distinct (operation, inputs); non-trivial = result has a non-zero coefficient")
+               "over Qc and compared coefficientwise; (F) random real/complex float expansions, both sides of every identity "
+               "evaluated at the same non-unit float ndarray with f_n = r^n, against the library's own values and a definition-level "
+               "evaluator at the original point; (G) every library call leaves its arguments bit-identical; distinct = distinct (operation, inputs); non-trivial = result has a non-zero coefficient")
     ck.trusted += ["harness/taylorcase.py + c16.py: printing of Coq literals, comparison glue (leqb/xcmp/pclose), numpy index "
                    "selection used to model __getitem__ keys", "numpy elementwise arithmetic on small dyadic numbers is exact"]
     ck.theorems()
@@ -499,3 +563,4 @@ def run(ck):
     exact_tier(ck, Ts)
     float_tier(ck, Ts)
     overflow_demo(ck, Ts)
+    tc.flush_guard(ck, "c16")
